@@ -140,6 +140,12 @@ def run(ctx):
         scs.append(dict(v=4, mtu=1500, sack=(k % 2 == 0), cc='', deadline_ms=30000, seed=300 + k, flags={}, tag='scaled-zero-window-%d-rb%d' % (k, rb),
                         a=dict(writes=[first, rb + 50000], shutdown=True), b=dict(writes=[], shutdown=True, rcvbuf=rb, read_start_ms=600),
                         a2b=dict(), b2a=dict()))
+    # ---- the application ENLARGES its receive buffer while the window it advertises is closed (it is not reading), and only
+    #      starts to read later: the transfer must go on (the setter has to announce the re-opened window; no packet is lost)
+    for k, (rb, rb2) in enumerate([(8192, 32768), (131072, 524288), (4096, 6000), (65535, 1 << 20)][:ctx.pick(2, 4)]):
+        scs.append(dict(v=4 if k % 2 == 0 else 6, mtu=1500, sack=(k % 2 == 1), cc='', deadline_ms=30000, seed=350 + k, flags={}, tag='rcvbuf-grow-at-zero-window-%d-%d-to-%d' % (k, rb, rb2),
+                        a=dict(writes=[rb2 + rb + 30000], shutdown=True), b=dict(writes=[], shutdown=True, rcvbuf=rb, rcvbuf2=rb2, rcvbuf2_ms=500, read_start_ms=1200),
+                        a2b=dict(), b2a=dict()))
     # ---- close orders: an application that has read the end of stream and finished writing Close()s its endpoint (the
     #      stack forgets the connection: no TIME-WAIT), the other side shuts down later and reads late; one packet of the
     #      closing exchange is lost.  Includes the replay of fixed finding F26 (final ACK lost -> retransmitted FIN answered by
